@@ -55,7 +55,7 @@ structure Fixes where
 def Fixes.none : Fixes := ⟨false, false, false, false, false, false⟩
 def Fixes.all : Fixes := ⟨true, true, true, true, true, true⟩
 /-- the code /repo contains now -/
-def current : Fixes := Fixes.none
+def current : Fixes := Fixes.all
 
 /-- the `FLAGS_*` bits -/
 structure Flags where
